@@ -501,6 +501,9 @@ func checkC09(e *Env, r *Report) {
 	r.Sample(recs[0])
 	r.Sample(recs[nSingle])
 	runRuleTextTrace(e, r, recs, "C09")
+	if r.Fatal == "" {
+		lexModel(e, r)
+	}
 }
 
 func ruleLabel(g genRule) string {
@@ -600,6 +603,14 @@ func fileRoundTrip(rng *rand.Rand, n int) map[string]any {
 
 // ---------------------------------------------------------------- C12
 
+// refQuote: apparmor.d(5) - a path holding whitespace is written between double quotes.
+func refQuote(p string) string {
+	if strings.ContainsAny(p, " \t") && !strings.HasPrefix(p, `"`) {
+		return `"` + p + `"`
+	}
+	return p
+}
+
 // refRender: an independent rendering of a rule's fields, written from apparmor.d(5).
 func refRender(r aa.Rule) (string, bool) {
 	q := func(a aa.Qualifier) string {
@@ -634,7 +645,10 @@ func refRender(r aa.Rule) (string, bool) {
 		if x.Target != "" {
 			t = " -> " + x.Target
 		}
-		return q(x.Qualifier) + o + "file " + x.Path + " " + strings.Join(x.Access, "") + t + ",", true
+		if x.Target != "" {
+			t = " -> " + refQuote(x.Target)
+		}
+		return q(x.Qualifier) + o + "file " + refQuote(x.Path) + " " + strings.Join(x.Access, "") + t + ",", true
 	case *aa.Link:
 		o := ""
 		if x.Owner {
@@ -883,6 +897,52 @@ func checkC12(e *Env, r *Report) {
 		classOf[fmt.Sprint(rec["id"])] = meaningClass(rule, got)
 		c12mu.Unlock()
 	})
+	// file rules of the character-level universe (RuleLex): every lexical feature in paths and targets
+	if lb := lexBehaviours(e, r); lb != nil {
+		lrs := []lexRule{}
+		for _, b := range lb {
+			if len(b.Rules) == 1 {
+				lrs = append(lrs, b.Rules[0])
+			}
+		}
+		if e.Tier != "thorough" && len(lrs) > 400 {
+			rng.Shuffle(len(lrs), func(i, j int) { lrs[i], lrs[j] = lrs[j], lrs[i] })
+			lrs = lrs[:400]
+		}
+		lrecs := make([]any, len(lrs))
+		parallel(len(lrs), 16, func(i int) {
+			rule := lrs[i].real()
+			ref, _ := refRender(rule)
+			var text string
+			func() {
+				defer func() { _ = recover() }()
+				text = rule.String()
+			}()
+			got := compileStub(dir, fmt.Sprintf("x%d", i), "  "+strings.TrimSpace(text))
+			want := compileStub(dir, fmt.Sprintf("y%d", i), "  "+ref)
+			rec := map[string]any{"ev": "meaning", "id": "lex:" + strings.TrimSpace(text), "text": strings.TrimSpace(text), "reftext": ref, "accepted": got.OK, "diag": got.Diag,
+				"refaccepted": want.OK, "samepolicy": want.OK && got.OK && want.Bin == got.Bin}
+			if !want.OK && !got.OK {
+				rec["accepted"] = true // outside the language for the reference parser: not judged
+				rec["refaccepted"] = false
+			}
+			lrecs[i] = rec
+			c12mu.Lock()
+			classOf[fmt.Sprint(rec["id"])] = "lex|" + diagClass(got.Diag)
+			c12mu.Unlock()
+		})
+		nNot := 0
+		for _, x := range lrecs {
+			if m := x.(map[string]any); m["refaccepted"] == false {
+				nNot++
+			}
+		}
+		r.Coverage["lex_rules_shown_to_reference_parser"] = len(lrecs)
+		r.Coverage["lex_rules_outside_reference_language"] = nNot
+		recs = append(recs, lrecs...)
+	} else if r.Fatal != "" {
+		return
+	}
 	// merged and formatted blocks, rules from logs and from directives
 	nBlocks := 150
 	if e.Tier == "thorough" {
